@@ -187,6 +187,11 @@ def regenerate_variant(ctx):
 def run(ctx):
     global PINNED_FINDSTOP
     PINNED_FINDSTOP = regenerate_variant(ctx)
+    if PINNED_FINDSTOP and not ctx.replay:
+        # the EXPECTED variant is the repaired one: a tree that answers like the first-listed FindStop has lost the F7 fix
+        ctx.violation("variant-regression", "loop 1 0 2 0a0a 7d 2 7d0a0a E",
+                      "the tree's FindStop answers like the first-listed variant (finding F7, fixed in 6e9857ebf): "
+                      "FindStop(\"}\\n\\n\", [\"\\n\\n\", \"}\"]) returned \"\\n\\n\"; one token \"}\\n\\n\" streams \"}\"")
     skel_diff = regenerate(ctx)
     # The skeleton tie is built on its own so that a change of either runner's output statements is reported as
     # exactly that (with the changed statements), and the property theorems are still checked.
@@ -290,6 +295,12 @@ def run(ctx):
                 "llama_reason_running", "llama_skip_calls", "llama_pending_at_end", "llama_multi_chunk",
                 "llama_f20_dropped_bytes", "llama_cachelen_cases"]
         missing = [k for k in need if ctx.stats.get(k, 0) <= 0]
+        # floors on the size of every phase (a generator that silently shrinks must not pass)
+        floors = {"cases": 10000, "exhaustive_cases": 3000, "gen_invalid": 500, "gen_valid_prefix": 8000,
+                  "handler_cases": 1000, "sched_cases": 400, "multi_cases": 400, "llama_loop_cases": 1500,
+                  "llama_models": 20, "llama_gen_invalid": 100, "cachelen_cases": 5000, "llama_cachelen_cases": 1000,
+                  "stops_overlap_in_window": 100, "find_hit": 5000, "trunc_hit": 5000, "suffix_hit": 2000}
+        missing += [f"{k}<{v}" for k, v in floors.items() if ctx.stats.get(k, 0) < v]
         if missing:
             ctx.violation("correspondence-coverage", "", "branches the theorems speak about were never exercised on the "
                           "real code by this run's generators: " + ", ".join(missing), no_input=True)
@@ -302,6 +313,9 @@ def run(ctx):
         "llamarunner's loop is executed with a generated GGUF model (one layer, one-hot embeddings, greedy sampling): what "
         "llama.cpp computes for real weights / other samplers is outside; its completion handler is tied by the regenerated "
         "statement skeleton only",
+        "for generated bytes that are not (a prefix of) valid UTF-8 the L2 monitors keep chunk validity, the reason map, "
+        "stop-in-output and the narrowed byte-dropping class on; 'ends right before the stop' and 'everything streamed at "
+        "EOS/limit' are evaluated for valid generations only (what is dropped after an undecodable byte is F20a)",
         "Chan.send's back-pressure semantics (a full buffered channel blocks the sender until one receive) is the Go memory "
         "model's, exercised under testing/synctest, not proved",
     ]
